@@ -272,7 +272,13 @@ def search(ctx):
             if name == "Tmatrix":
                 polr = (1.0, 0.0)    # (-1, 0) is the same linear polarisation; the wrapper accepts only [1, 0]
             ctx.tried("rotation", (name, type(sc).__name__, round(a, 4), i))
-            hr = calc_holo(detector_points(x=np.array(xr_), y=np.array(yr_), z=0.0), rotate_scatterer(sc, a, pivot), illum_polarization=polr,
+            detr_ = detector_points(x=np.array(xr_), y=np.array(yr_), z=0.0)
+            if i % 3 == 0:
+                # the rotated detector is made from a RECORDED image: it carries optics of its own (the unrotated polarisation);
+                # what is passed in the call is what counts, for the scattered AND the reference wave
+                from holopy.core.metadata import update_metadata as _um
+                detr_ = _um(detr_, illum_polarization=pol0, medium_index=OPT["medium_index"], illum_wavelen=OPT["illum_wavelen"])
+            hr = calc_holo(detr_, rotate_scatterer(sc, a, pivot), illum_polarization=polr,
                            theory=mk(), **OPT).values
             dev = float(np.abs(hr - h0).max())
             if not (dev <= tol * scale):
